@@ -24,6 +24,7 @@ def main(argv=None):
         libcheck.gen_dir()
         print("setup ok: tree", repo.tree_key())
         return 0
+    repo.gc_cache()
     mod = importlib.import_module("vlib.checks." + a.pid.lower())
     replay = json.load(open(a.replay)) if a.replay else None
     return mod.run(a.tier, replay=replay)
